@@ -112,6 +112,11 @@ func (s *Scheme) handleMPC(msg *IncMessage) {
 		return
 	}
 
+	if len(digest) > 0 && len(digest) != sha256.Size {
+		s.Logger.Warnf("Received acknowledgement from %d with a digest of %d bytes, dropping it", msg.Source, len(digest))
+		return
+	}
+
 	if len(digest) > 0 {
 		s.handleAck(msg, round, sender, digest, handleRBC)
 	} else {
@@ -925,6 +930,10 @@ func (r rbcEncoding) Payload() []byte {
 }
 
 func (r rbcEncoding) Ack() (digest []byte, sender uint16, msgRound uint8, err error) {
+	if len(r) == 0 {
+		return nil, 0, 0, fmt.Errorf("message is empty")
+	}
+
 	// In ack messages, the MSB of the first byte is 0
 	if r[0]>>7 != 0 {
 		return nil, 0, 0, nil
